@@ -222,6 +222,12 @@ func CreateIDToken(ctx context.Context, issuer string, request IDTokenRequest, v
 			return "", err
 		}
 		claims.SetUserInfo(userInfo)
+		// SetUserInfo takes the subject from the userinfo; a storage that did
+		// not set it there (e.g. because "openid" is not among the scopes of a
+		// narrowed refresh request) must not erase the subject of the request.
+		if claims.Subject == "" {
+			claims.Subject = request.GetSubject()
+		}
 	} else if len(scopes) > 0 {
 		userInfo := new(oidc.UserInfo)
 		err := storage.SetUserinfoFromScopes(ctx, userInfo, request.GetSubject(), request.GetClientID(), scopes)
@@ -235,6 +241,12 @@ func CreateIDToken(ctx context.Context, issuer string, request IDTokenRequest, v
 			}
 		}
 		claims.SetUserInfo(userInfo)
+		// SetUserInfo takes the subject from the userinfo; a storage that did
+		// not set it there (e.g. because "openid" is not among the scopes of a
+		// narrowed refresh request) must not erase the subject of the request.
+		if claims.Subject == "" {
+			claims.Subject = request.GetSubject()
+		}
 	}
 	if code != "" {
 		codeHash, err := oidc.ClaimHash(code, signingKey.SignatureAlgorithm())
